@@ -225,14 +225,17 @@ def run_find_peaks(d):
         classes.add("overlapping_hits")
     # ordered and disjoint (last: everything else has been compared by now)
     t, e = got["time"].astype(np.int64), endtime(got)
-    # an overlapping pair is the recorded finding F17 only when the boundary between exactly these two peaks is a
-    # duration-forced split between hits closer than left + right extension
+    # an overlapping pair is the recorded finding F17 only when the cluster of the earlier peak was closed by a
+    # duration-forced split in front of a hit closer than left + right extension to it (clusters in between may
+    # have been removed by the cuts)
     bmap = {i: (kind, cend) for kind, i, cend in bounds}
     over = [k for k in range(len(got) - 1) if t[k + 1] < e[k]]
-    excused = bool(over) and all(
-        bmap.get(kept[k + 1]["members"][0], ("", 0))[0] in ("dur", "band")
-        and kept[k]["members"][-1] + 1 == kept[k + 1]["members"][0]
-        and lst[kept[k + 1]["members"][0]][0] - bmap[kept[k + 1]["members"][0]][1] < le + re for k in over)
+
+    def forced_close(k):
+        kind, cend = bmap.get(kept[k]["members"][-1] + 1, ("", 0))
+        return kind in ("dur", "band") and lst[kept[k]["members"][-1] + 1][0] - cend < le + re
+
+    excused = bool(over) and all(forced_close(k) for k in over)
     tags = ["dur-split-closer-than-extensions"] if excused else []
     check(np.all(t[1:] >= t[:-1]), "find_peaks.not_time_ordered", (d, t.tolist()), tags)
     check(np.all(t[1:] >= e[:-1]), "find_peaks.peaks_overlap",
